@@ -94,6 +94,93 @@ func getEP(c *core.Ctx, rule string) *epAnchors {
 	return a
 }
 
+// readSite describes where the reader goroutine reads the next message: the
+// call in process (Message.Read itself, or a helper used by process only that
+// reads one message and returns it), and how the message and the error of
+// that read are named in process.
+type readSite struct {
+	call    ssa.CallInstruction // in process
+	helper  *ssa.Function       // nil when process calls Message.Read itself
+	inner   ssa.CallInstruction // the Message.Read call
+	msgIdx  int                 // result of the helper carrying the message
+	problem string
+}
+
+func (a *epAnchors) readSite(c *core.Ctx) *readSite {
+	msgRead := c.Func("bus/net", "Message", "Read")
+	rs := &readSite{msgIdx: -1}
+	unit := exclusiveUnit(c, a.process)
+	n := 0
+	for _, call := range core.Calls(a.process) {
+		f := core.StaticCallee(call)
+		switch {
+		case f == nil:
+		case f == msgRead:
+			rs.call, rs.inner = call, call
+			n++
+		case unit[f] && f != a.process:
+			for _, ic := range core.Calls(f) {
+				if core.IsCallTo(ic, msgRead) {
+					rs.call, rs.helper, rs.inner = call, f, ic
+					n++
+				}
+			}
+		}
+	}
+	if n != 1 {
+		rs.problem = fmt.Sprintf("process reads messages at %d places (expected one Message.Read, directly or in a helper of its own)", n)
+		return rs
+	}
+	if rs.helper != nil {
+		// the helper returns the message it read, and the error of the read
+		ei := hasErrorResult(rs.helper.Signature)
+		if ei < 0 {
+			rs.problem = "the helper that reads the message does not return an error"
+			return rs
+		}
+		iv, _ := rs.inner.(*ssa.Call)
+		if iv == nil {
+			rs.problem = "the message is read asynchronously"
+			return rs
+		}
+		if bad := errorPropagates(c, rs.helper, iv, iv, ei, "Message.Read"); bad != "" {
+			rs.problem = bad
+			return rs
+		}
+		msg := core.Canon(rs.inner.Common().Args[0])
+		for _, r := range core.Returns(rs.helper) {
+			if !successReturn(r) {
+				continue
+			}
+			for i := range r.Results {
+				if i != ei && core.Canon(core.RetVal(r, i)) == msg {
+					rs.msgIdx = i
+				}
+			}
+		}
+		if rs.msgIdx < 0 {
+			rs.problem = "the helper that reads the message does not return the message it read"
+		}
+	}
+	return rs
+}
+
+// isErr: v is the error of the read (as seen in process).
+func (rs *readSite) isErr(v ssa.Value) bool {
+	cr, _ := core.CallResult(v)
+	return cr != nil && ssa.CallInstruction(cr) == rs.call && core.IsErrorType(v.Type())
+}
+
+// isMsg: v is the message just read (as seen in process).
+func (rs *readSite) isMsg(v ssa.Value) bool {
+	v = core.Canon(v)
+	if rs.helper == nil {
+		return v == core.Canon(rs.call.Common().Args[0])
+	}
+	cr, idx := core.CallResult(v)
+	return cr != nil && ssa.CallInstruction(cr) == rs.call && idx == rs.msgIdx
+}
+
 // isCloseBuiltin returns the closed channel operand if in is close(ch).
 func isCloseBuiltin(in ssa.Instruction) ssa.Value {
 	call, ok := in.(ssa.CallInstruction)
@@ -266,6 +353,14 @@ func ruleCloseWithCallers(c *core.Ctx, a *epAnchors, lc *core.LockCache, rule st
 				}
 				ia, ok := st.Addr.(*ssa.IndexAddr)
 				return ok && isFieldOf(ia.X, a.handlers) && core.SameValue(ia.Index, idx)
+			}
+			// the slot may also be cleared first: every path from reading the slot to
+			// the close passes the clearing store (same critical section, see above)
+			if ld, ok := core.Canon(recv).(ssa.Instruction); ok && ld.Parent() == fn {
+				if before := core.ReachFrom(core.After(ld), clears, nil); !before.Has(in) {
+					c.Pass(rule, key, call.Pos(), "non-nil slot, under handlersMutex, slot cleared in the same critical section before the close")
+					continue
+				}
 			}
 			r := core.ReachFrom(core.After(in), clears, nil)
 			bad := ""
@@ -514,6 +609,7 @@ type handlerSite struct {
 	call                  ssa.CallInstruction
 	via                   string // MakeHandler | AddHandler
 	filter, queue, closer ssa.Value
+	consumer              ssa.Value // AddHandler only
 	ord                   int
 }
 
@@ -551,6 +647,8 @@ func handlerSites(c *core.Ctx, a *epAnchors) []handlerSite {
 			s := handlerSite{fn: fn, call: call, via: name, filter: args[0], closer: args[2], ord: ord[name]}
 			if name == "MakeHandler" {
 				s.queue = args[1]
+			} else {
+				s.consumer = args[1]
 			}
 			out = append(out, s)
 		}
@@ -559,22 +657,114 @@ func handlerSites(c *core.Ctx, a *epAnchors) []handlerSite {
 	return out
 }
 
+// deadConsumers: consumers registered together with a filter that never
+// matches (every return of the filter yields matched == false) and that are
+// not called from anywhere else: the endpoint never invokes them.
+func deadConsumers(c *core.Ctx, a *epAnchors) map[*ssa.Function]bool {
+	out := map[*ssa.Function]bool{}
+	sites, _ := c.CallSites()
+	for _, s := range handlerSites(c, a) {
+		if s.consumer == nil {
+			continue
+		}
+		f, ok := funcValue(s.filter)
+		cons, ok2 := funcValue(s.consumer)
+		if !ok || !ok2 || f == nil || cons == nil || len(sites[cons]) > 0 {
+			continue
+		}
+		never := len(core.Returns(f)) > 0
+		for _, r := range core.Returns(f) {
+			if b, isConst := core.ConstBool(core.RetVal(r, 0)); !isConst || b {
+				never = false
+			}
+		}
+		if never {
+			out[cons] = true
+		}
+	}
+	return out
+}
+
 // funcValue resolves a function-typed value to the function it denotes
 // (closure or named function), nil for nil constants / unknown values.
 func funcValue(v ssa.Value) (*ssa.Function, bool) {
+	f, _, ok := funcValueCtx(v)
+	return f, ok
+}
+
+// funcValueCtx also looks through a factory of the repository (a function
+// whose every return is a closure of one literal, or one named function):
+// then subst maps the factory's parameters to the arguments of this call, so
+// that what the closure captured can be named in the caller.
+func funcValueCtx(v ssa.Value) (*ssa.Function, map[*ssa.Parameter]ssa.Value, bool) {
 	v = core.Canon(v)
 	switch x := v.(type) {
 	case *ssa.MakeClosure:
 		f, _ := x.Fn.(*ssa.Function)
-		return f, f != nil
+		return f, nil, f != nil
 	case *ssa.Function:
-		return x, true
+		return x, nil, true
 	case *ssa.Const:
 		if x.Value == nil {
-			return nil, true // nil callback
+			return nil, nil, true // nil callback
 		}
+	case *ssa.Call:
+		g := x.Call.StaticCallee()
+		if g == nil || !inRepo(g) || len(g.Blocks) == 0 {
+			return nil, nil, false
+		}
+		var res *ssa.Function
+		for _, r := range core.Returns(g) {
+			if len(r.Results) != 1 {
+				return nil, nil, false
+			}
+			f, _, ok := funcValueCtx(core.RetVal(r, 0))
+			if !ok || f == nil || (res != nil && res != f) {
+				return nil, nil, false
+			}
+			res = f
+		}
+		if res == nil {
+			return nil, nil, false
+		}
+		subst := map[*ssa.Parameter]ssa.Value{}
+		for i, p := range g.Params {
+			if i < len(x.Call.Args) {
+				subst[p] = x.Call.Args[i]
+			}
+		}
+		return res, subst, true
 	}
-	return nil, false
+	return nil, nil, false
+}
+
+// apiParam matches the k-th uint32 parameter of the API method api (service,
+// object, action in that order for client.Call and client.Subscribe), as seen
+// from a callback: directly captured, or captured by a factory whose
+// parameters subst maps to the arguments api passed.
+func apiParam(api *ssa.Function, k int, subst map[*ssa.Parameter]ssa.Value) func(ssa.Value) bool {
+	return func(v ssa.Value) bool {
+		w := core.Canon(v)
+		if p, ok := w.(*ssa.Parameter); ok {
+			if a, ok := subst[p]; ok {
+				w = core.Canon(a)
+			}
+		}
+		p, ok := w.(*ssa.Parameter)
+		if !ok || p.Parent() != api {
+			return false
+		}
+		n := 0
+		for _, q := range api.Params {
+			if b, ok := q.Type().Underlying().(*types.Basic); ok && b.Kind() == types.Uint32 {
+				if q == p {
+					return n == k
+				}
+				n++
+			}
+		}
+		return false
+	}
 }
 
 // allUses collects every instruction using value v, following conversions,
